@@ -162,6 +162,7 @@ func drawChain(t *rapid.T) sim.ChainCase {
 	g := sim.GenChain(t, sim.GenOpts{
 		Net:       sim.NetOpts{MaxForkHeight: rapid.SampledFrom([]int{6, 12, 25}).Draw(t, "forkSpan"), V2Only: rapid.IntRange(0, 3).Draw(t, "v2only") == 0},
 		MinBlocks: 6, MaxBlocks: 36, Reorgs: true, MaxReorg: 6, Profile: sim.Profile{Contracts: 1, MaxTxns: 6},
+		StrayProofs: true, // valid blocks whose ephemeral parents carry meaningless proofs
 	})
 	c, err := g.Case.Normalize()
 	if err != nil {
